@@ -10,6 +10,7 @@ Case = {'ops': [...]}, ops:
   ['delmon', name]
   ['sched', name, [ids]]          state['scheduled'][name] = sorted instance names
   ['tick', dt]
+ ['restart']                     the monitor process restarts (new `_run_sync` over the existing nodes)
   ['reconn', lost]                the ZooKeeper connection is suspended (lost=1: session lost) and re-established
   ['eval', {name: outcome}]       outcome of the REST call made for `name` in this evaluation
                                   (ok | nf | br | ve | ex)
@@ -70,6 +71,8 @@ def gen_case(rng, pid, tier):
             for _ in range(min(len(l), rng.randint(1, 3))):
                 l.pop(rng.randrange(len(l)))
             ops.append(['sched', n, sorted(l)])
+        elif r < 0.53:
+            ops.append(['restart'])
         elif r < 0.56:
             ops.append(['reconn', 1 if rng.random() < 0.3 else 0])
         elif r < 0.70:
@@ -195,7 +198,13 @@ def run_impl(case, pid):
         def ChildrenWatch(self, path):                                   # pylint: disable=invalid-name
             def deco(func):
                 watches[path] = func
-                func([])                        # kazoo calls the function once on registration
+                # kazoo calls the function once on registration, with the children there are
+                if path.rstrip('/').endswith('scheduled'):
+                    children = [i_ for l_ in sched_all.values() for i_ in l_]
+                    shuffle_rng.shuffle(children)
+                    func(children)
+                else:
+                    func(sorted(mon_nodes))
                 return func
             return deco
 
@@ -283,7 +292,9 @@ def run_impl(case, pid):
 
     def capture_reevaluate(_api, _alerter, st, _zk, lw):
         captured['state'] = st
+        captured['lw'] = lw
         return lw
+    persisted = {}          # what the service last wrote to /app-monitors (read back by a restarted service)
 
     def alert_f(instance, summary, **kwargs):
         kind = {'Monitor active again': 0, 'Monitor suspended: Rate limited': 1,
@@ -301,7 +312,7 @@ def run_impl(case, pid):
             mock.patch('treadmill.zkutils.update', zkupd), \
             mock.patch.object(appmonitor, 'context', ctx), \
             mock.patch.object(appmonitor, 'make_alerter', lambda _d, _c: alert_f), \
-            mock.patch.object(appmonitor.masterapi, 'get_suspended_appmonitors', lambda _zk: {}), \
+            mock.patch.object(appmonitor.masterapi, 'get_suspended_appmonitors', lambda _zk: dict(persisted)), \
             mock.patch.object(appmonitor.utils, 'exit_on_unhandled', lambda f: f):
         # the real `_run_sync`, once: it creates `state` and registers the watches
         with mock.patch.object(appmonitor, 'reevaluate', capture_reevaluate):
@@ -359,6 +370,30 @@ def run_impl(case, pid):
                 fzk.reconnect(bool(op[1]))
                 run.tags.add('reconnect-lost' if op[1] else 'reconnect-suspended')
                 run.op('reconn', 'ok')
+            elif k == 'restart':
+                # the monitor process restarts: a new `_run_sync` on the nodes there are - every monitor is picked
+                # up in ONE children event, the scheduled instances in one, the suspension table is read back
+                with mock.patch.object(appmonitor, 'reevaluate', capture_reevaluate):
+                    appmonitor._run_sync('http://x', '/nonexistent', True)             # pylint: disable=protected-access
+                state = captured['state']
+                last_waited = captured['lw']
+                sched_watch = [f for pth, f in watches.items() if pth.rstrip('/').endswith('scheduled')][0]
+                mons_watch = [f for pth, f in watches.items() if not pth.rstrip('/').endswith('scheduled')][0]
+                run.tags.add('restart')
+                if len(state['monitors']) >= 2:
+                    run.tags.add('restart-with->=2-monitors')
+                run.op('rst %s' % (','.join(str(name_id(n)) for n in sorted(last_waited, key=name_id)) or '-'), 'ok')
+                for nm, conf in state['monitors'].items():
+                    # (the order in which the restarted service registered them: a Python set's)
+                    want = intent.get(nm)
+                    run.op('mon %d %d %s' % (name_id(nm), conf['count'], want if want else 'none'), 'ok')
+                    cfg_count[nm] = conf['count']
+                    exact[nm] = Fraction(2 * conf['count'])
+                    exact_last[nm] = now[0]
+                for nm in sorted(sched_all, key=name_id):
+                    if sched_all[nm]:
+                        run.op('sched %d %s' % (name_id(nm), ','.join(
+                            str(int(i_.rpartition('#')[2])) for i_ in sorted(sched_all[nm]))), 'ok')
             elif k == 'tick':
                 now[0] += op[1]
                 run.op('tick %d' % op[1], 'ok')
@@ -391,6 +426,8 @@ def run_impl(case, pid):
                 n_eval += 1
                 modified = zkupd.called
                 if modified:
+                    persisted.clear()
+                    persisted.update(zkupd.call_args[0][2])
                     # what is written must be what is returned
                     if zkupd.call_args[0][2] != last_waited:
                         run.hits.append(fw.Hit(clause='zk-update-differs', call_site='reevaluate',
